@@ -1,0 +1,128 @@
+//go:build verif
+
+// Contracts for package wmpt, checked by /verif/gocv (comment-only file).
+package wmpt
+
+// The dynamic types of Node are the five node kinds of this package.
+//@ closed Node
+
+// A short node always has a value below it.
+//@ typeinv shortNode: self.value != nil      #value-present
+
+// ---- interface-level contracts (used at every n.Method() call through the Node interface);
+//      each implementation below is checked against the same clauses ----
+
+//@ func (Node).Hash returns (h)
+//@   pure
+//@ func (Node).Weight returns (w)
+//@   pure
+//@ func (Node).Dirty returns (d)
+//@   pure
+//@ func (Node).ToCollect returns (d)
+//@   pure
+//@ func (Node).CalcHash returns (h)
+//@   assigns heap(routingNode.hash), heap(routingNode.dirty), heap(shortNode.hash), heap(shortNode.dirty), heap(valueNode.hash), heap(valueNode.dirty)
+
+//@ func (*routingNode).Hash returns (h)
+//@   props C15
+//@   assigns nothing
+//@ func (*valueNode).Hash returns (h)
+//@   props C15
+//@   assigns nothing
+//@ func (*shortNode).Hash returns (h)
+//@   props C15
+//@   assigns nothing
+//@ func (*hashNode).Hash returns (h)
+//@   props C15
+//@   assigns nothing
+//@ func (*nilNode).Hash returns (h)
+//@   props C15
+//@   assigns nothing
+
+//@ func (*routingNode).Weight returns (w)
+//@   props C15
+//@   assigns nothing
+//@ func (*valueNode).Weight returns (w)
+//@   props C15
+//@   assigns nothing
+//@ func (*shortNode).Weight returns (w)
+//@   props C15
+//@   assigns nothing
+//@ func (*hashNode).Weight returns (w)
+//@   props C15
+//@   assigns nothing
+//@ func (*nilNode).Weight returns (w)
+//@   props C15
+//@   assigns nothing
+
+//@ func (*routingNode).CalcHash returns (h)
+//@   props C15
+//@   mode wrap
+//@   assigns heap(routingNode.hash), heap(routingNode.dirty), heap(shortNode.hash), heap(shortNode.dirty), heap(valueNode.hash), heap(valueNode.dirty)
+//@   loop 1 invariant fresh(m)                  #buffer-is-local
+//@ func (*valueNode).CalcHash returns (h)
+//@   props C15
+//@   mode wrap
+//@   assigns v.hash, v.dirty
+//@ func (*shortNode).CalcHash returns (h)
+//@   props C15
+//@   mode wrap
+//@   assigns heap(routingNode.hash), heap(routingNode.dirty), heap(shortNode.hash), heap(shortNode.dirty), heap(valueNode.hash), heap(valueNode.dirty)
+//@ func (*hashNode).CalcHash returns (h)
+//@   props C15
+//@   assigns nothing
+//@ func (*nilNode).CalcHash returns (h)
+//@   props C15
+//@   assigns nothing
+
+// Serialize of each kind: what DeserializeNode accepts re-encodes without panicking.
+//@ func (*routingNode).Serialize returns (data, err)
+//@   props C15
+//@   mode wrap
+//@ func (*valueNode).Serialize returns (data, err)
+//@   props C15
+//@   mode wrap
+//@ func (*shortNode).Serialize returns (data, err)
+//@   props C15
+//@   mode wrap
+//@ func (*hashNode).Serialize returns (data, err)
+//@   props C15
+//@ func (*nilNode).Serialize returns (data, err)
+//@   props C15
+
+// ---- C15: decoders never panic, terminate, and what they accept re-encodes ----
+
+//@ func DeserializeNode returns (node, err)
+//@   props C15
+//@   mode wrap
+//@   ensures err == nil ==> node != nil && fresh(node)                         #fresh-node
+
+//@ func verifyProof returns (node, value, err)
+//@   props C15
+//@   mode wrap
+//@   requires persistTrie != nil && ind != nil && *ind >= 0 && *ind <= len(persistTrie.Pairs)
+//@   ensures *ind >= old(*ind) && *ind <= len(persistTrie.Pairs)                 #ind-monotone
+//@   ensures err == nil ==> node != nil && *ind > old(*ind)                      #progress
+//@   decreases len(persistTrie.Pairs) - *ind
+//@   assigns *ind, heap(routingNode.hash), heap(routingNode.dirty), heap(shortNode.hash), heap(shortNode.dirty), heap(valueNode.hash), heap(valueNode.dirty)
+//@   loop 1 invariant *ind > old(*ind) && *ind <= len(persistTrie.Pairs)         #ind-advanced
+
+//@ func (*WeightedMerkleTrie).VerifyBlockProof returns (hash, value, err)
+//@   props C15
+//@   mode wrap
+//@   requires t != nil
+
+//@ func (*WeightedMerkleTrie).deserializeTrie returns (node, err)
+//@   props C15
+//@   mode wrap
+//@   requires ind != nil && *ind >= 0 && *ind <= len(pairs)
+//@   ensures *ind >= old(*ind) && *ind <= len(pairs)                             #ind-monotone
+//@   ensures err == nil && len(pairs) > 0 ==> node != nil && *ind > old(*ind)    #progress
+//@   decreases len(pairs) - *ind
+//@   assigns *ind
+//@   loop 1 invariant *ind > old(*ind) && *ind <= len(pairs)                     #ind-advanced
+
+//@ func (*WeightedMerkleTrie).Deserialize returns (err)
+//@   props C15
+//@   mode wrap
+//@   requires t != nil
